@@ -8,6 +8,11 @@ EnumVal = namedtuple("EnumVal", "cls member")
 FuncRef = namedtuple("FuncRef", "name")
 
 
+# platform constants of the standard library (POSIX values; gwf drives POSIX schedulers)
+EXTERNAL_CONSTANTS = {"os.curdir": ".", "os.pardir": "..", "os.sep": "/", "os.path.sep": "/", "os.linesep": "\n", "os.devnull": "/dev/null", "os.extsep": ".", "os.pathsep": ":",
+                      "os.path.curdir": ".", "os.path.pardir": ".."}
+
+
 class DefaultDict(dict):
     def __init__(self, default, data):
         super().__init__(data)
@@ -99,6 +104,8 @@ class Evaluator:
             raise CantEval(n, "(unresolved name)")
         if canon.startswith("builtins."):
             return FuncRef(canon)
+        if canon in EXTERNAL_CONSTANTS:
+            return EXTERNAL_CONSTANTS[canon]
         obj = self.index.lookup(canon)
         if isinstance(obj, tuple) and obj[0] == "const":
             key = (obj[1].name, id(obj[2]))
